@@ -76,8 +76,10 @@ def generate(rnd, tier):
         cols = [f"g{k}" for k in range(n_cols)]
         vals = [rnd.sample([v for v in ALPHABET if "_" not in v] if plain else ALPHABET, rnd.randint(5, 8)) for _ in range(n_cols)]
         n_rows = rnd.randint(150, 320)
-    lab_kind = rnd.choice(["01", "01", "str", "multi"])
-    if lab_kind == "01":
+    lab_kind = rnd.choice(["01", "01", "str", "multi", "bool"])
+    if lab_kind == "bool":
+        labs, pos_label = [False, True], True
+    elif lab_kind == "01":
         labs, pos_label = [0, 1], 1
     elif lab_kind == "str":
         labs, pos_label = ["p", "n"], "p"
@@ -108,7 +110,11 @@ def generate(rnd, tier):
         op = {"op": "showbias", "metric": rnd.choice(METRICS) if rnd.random() < 0.7 else rnd.choice(["fnr", "fpr", "tpr", "ppv"]),
               "threshold": thr, "tkind": tkind, "normalize": rnd.choice([None, None, "by_overall", "by_min"]),
               "score_class": rnd.choice(["pos", "neg"]), "equal_class": rnd.choice(["pos", "neg"]),
-              "group_columns": cols if as_list else cols[0], "bootstrap_ci": boot, "alpha": round(rnd.uniform(0.01, 0.5), 3)}
+              "group_columns": cols if as_list else cols[0], "bootstrap_ci": boot,
+              "alpha": round(rnd.uniform(0.01, 0.5), 3) if rnd.random() < 0.85 else round(rnd.uniform(0.5, 0.95), 2)}
+        if isinstance(thr, list) and len(thr) > 1 and not wide and rnd.random() < 0.2:
+            thr = thr[::-1] if rnd.random() < 0.5 else thr + [thr[0]]  # descending / duplicated thresholds
+            op["threshold"] = thr
         if boot:
             r = rnd.random()
             if r < 0.2:
